@@ -46,6 +46,19 @@ class MachineryError(Exception):
     """The checking machinery itself is broken (exit 2, never a VIOLATION)."""
 
 
+class SkipCase(Exception):
+    """The case cannot be run against this checkout for a reason that says nothing about the property (a private helper
+    the harness calls directly has been renamed or removed): the case is counted as skipped, never as a failure."""
+
+
+def private(obj, name):
+    """`getattr(obj, name)` for names that are not public API: a harmless refactoring may rename them"""
+    try:
+        return getattr(obj, name)
+    except AttributeError:
+        raise SkipCase(f"private helper {getattr(obj, '__name__', type(obj).__name__)}.{name} is not available") from None
+
+
 # --------------------------------------------------------------------------- rationals
 def Q(x):
     """Exact rational string of an int / float / Fraction / numpy scalar."""
@@ -335,6 +348,8 @@ def run_property(mod, tier, seed, replay=None, budget_s=None):
                 return mod.run_impl(case)
         except MachineryError:
             raise
+        except SkipCase as e:   # says nothing about the property: no observables, no failure
+            return {"oracle": [], "tags": ["adapter-crash", "skipped:" + str(e)]}
         except Exception as e:  # adapter crashed: treat as an oracle failure with traceback
             return {"oracle": [f"adapter raised {type(e).__name__}: {e}"], "tags": ["adapter-crash"],
                     "trace": traceback.format_exc()[-1500:]}
